@@ -23,7 +23,7 @@ class Vocab:
     (owner TSUB, instances of T1 that no T1 pointer of the vocabulary names).  Two of the T1 instance names are special:
     one has a letter whose lower() and casefold() differ, one has a label of the maximal 63 octets."""
 
-    def __init__(self, n1: int, n2: int, n3: int = 0) -> None:
+    def __init__(self, n1: int, n2: int, n3: int = 0, shared: bool = False) -> None:
         self.ids: Dict[int, Tuple[str, str]] = {}
         for k in range(n1):
             label = 'Inst%03d' % k
@@ -36,7 +36,8 @@ class Vocab:
         for k in range(n2):
             self.ids[len(self.ids) + 1] = (T2, 'Prn%03d.%s' % (k, T2))
         for k in range(n3):
-            self.ids[len(self.ids) + 1] = (TSUB, 'Sub%03d.%s' % (k, T1))
+            # (shared: the subtype pointer names an instance that a T1 pointer of the vocabulary names too)
+            self.ids[len(self.ids) + 1] = (TSUB, ('Inst%03d.%s' if shared else 'Sub%03d.%s') % (k, T1))
         self.by_key = {(low(t), low(a)): i for i, (t, a) in self.ids.items()}
         self.by_alias = {low(a): i for i, (t, a) in self.ids.items()}
 
@@ -65,7 +66,7 @@ def build_ptr_datagram(voc: Vocab, items: List[dict]) -> bytes:
 class Recorder:
     def __init__(self, sc: dict) -> None:
         self.sc = sc
-        self.voc = Vocab(sc.get('n1', 6), sc.get('n2', 2), sc.get('n3', 0))
+        self.voc = Vocab(sc.get('n1', 6), sc.get('n2', 2), sc.get('n3', 0), bool(sc.get('shared')))
         self.net = simnet.Net(seed=sc.get('seed', 0), rand=sc.get('rand'), record_bytes=False)
         self.events: List[dict] = []
         self.did: Dict[bytes, int] = {}
@@ -150,10 +151,10 @@ class Recorder:
 
         class BL(ServiceListener):
             def add_service(self, zc: Any, type_: str, name: str) -> None:
-                rec.ev('cb', kind='add', ty=TYPE_ID.get(low(type_), 0), alias=rec.voc.by_alias.get(low(name), 0))
+                rec.ev('cb', kind='add', ty=TYPE_ID.get(low(type_), 0), alias=rec.voc.by_key.get((low(type_), low(name)), 0) or rec.voc.by_alias.get(low(name), 0))
 
             def remove_service(self, zc: Any, type_: str, name: str) -> None:
-                rec.ev('cb', kind='rem', ty=TYPE_ID.get(low(type_), 0), alias=rec.voc.by_alias.get(low(name), 0))
+                rec.ev('cb', kind='rem', ty=TYPE_ID.get(low(type_), 0), alias=rec.voc.by_key.get((low(type_), low(name)), 0) or rec.voc.by_alias.get(low(name), 0))
 
             def update_service(self, zc: Any, type_: str, name: str) -> None:
                 pass
@@ -459,3 +460,17 @@ def gen_c13_history(rng: random.Random, sid: str, thorough: bool = False) -> dic
         steps += [{'op': 'at', 't': tt}, st]
     steps.append({'op': 'at', 't': bs + 16000})
     return {'id': sid, 'n1': n1, 'n2': n2, 'seed': rng.randint(0, 10 ** 9), 'steps': steps, 'rand': {'first': r, 'tc': 437}}
+
+
+def d26_scenarios() -> List[dict]:
+    """Directed history of finding D26: one browser for a type and its subtype hears, in one datagram, a pointer of each kind
+    to the same instance."""
+    n1, n2 = 6, 2
+    sub = n1 + n2 + 1
+    out = []
+    for k, ttl in enumerate((4500, 1200)):
+        steps = [{'op': 'at', 't': 0}, {'op': 'bstart', 'types': [T1, TSUB], 'delay': 10000, 'forced': 'none'},
+                 {'op': 'at', 't': 30000}, {'op': 'recv', 'items': [{'id': 1, 'ttl': ttl, 'sp': 0}, {'id': sub, 'ttl': ttl, 'sp': 0}]},
+                 {'op': 'at', 't': 30000 + ttl * 1000 + 40000}]
+        out.append({'id': 'c10-d26-%d' % k, 'n1': n1, 'n2': n2, 'n3': 1, 'shared': True, 'seed': 1, 'steps': steps, 'rand': 'lo'})
+    return out
